@@ -207,7 +207,7 @@ Definition rf_57 : fn_skel := {| sk_name := "execv"; sk_nparams := 2; sk_body :=
  (SExpr (XCall "snoopy_entrypoint_execve_wrapper_init" [(XParam 0); (XParam 1); (XVar "envp")]));
  (SExpr (XCall "snoopy_action_log_syscall_exec" []));
  (SExpr (XCall "snoopy_entrypoint_execve_wrapper_exit" []));
- (SReturn (Some (XCallPtr (XDeref (XVar "func")) [(XParam 0); (XParam 1)])))] |}.
+ (SReturn (Some (XCallPtr (XVar "func") [(XParam 0); (XParam 1)])))] |}.
 
 Definition rf_58 : fn_skel := {| sk_name := "execve"; sk_nparams := 3; sk_body :=
  [(SDecl "func" false None);
@@ -215,7 +215,7 @@ Definition rf_58 : fn_skel := {| sk_name := "execve"; sk_nparams := 3; sk_body :
  (SExpr (XCall "snoopy_entrypoint_execve_wrapper_init" [(XParam 0); (XParam 1); (XParam 2)]));
  (SExpr (XCall "snoopy_action_log_syscall_exec" []));
  (SExpr (XCall "snoopy_entrypoint_execve_wrapper_exit" []));
- (SReturn (Some (XCallPtr (XDeref (XVar "func")) [(XParam 0); (XParam 1); (XParam 2)])))] |}.
+ (SReturn (Some (XCallPtr (XVar "func") [(XParam 0); (XParam 1); (XParam 2)])))] |}.
 
 Definition rf_60 : fn_skel := {| sk_name := "find_ancestor_in_list"; sk_nparams := 1; sk_body :=
  [(SDecl "ppid" false None);
